@@ -7,6 +7,7 @@ mod message_processor;
 pub use connection::AsyncConnection;
 pub use error::ExitError;
 
+use ::lsp_server::{ErrorCode, Response};
 use lsp_types::InitializeParams;
 use std::error::Error;
 
@@ -28,8 +29,26 @@ pub async fn run_ls(cmd_args: CmdArgs) -> Result<(), Box<dyn Error + Sync + Send
         }
     };
 
-    let (id, params) = connection.initialize_start()?;
-    let initialization_params: InitializeParams = serde_json::from_value(params).unwrap();
+    // an `initialize` whose params do not deserialize is answered with an InvalidParams error (it used to panic the
+    // server, without a response); the server then waits for the next `initialize`
+    let mut initialize = None;
+    while initialize.is_none() {
+        let (id, params) = connection.initialize_start()?;
+        match serde_json::from_value::<InitializeParams>(params) {
+            Ok(initialization_params) => initialize = Some((id, initialization_params)),
+            Err(err) => {
+                let response = Response::new_err(
+                    id,
+                    ErrorCode::InvalidParams as i32,
+                    format!("invalid initialize params: {err}"),
+                );
+                let _ = connection.sender.send(response.into());
+            }
+        }
+    }
+    let Some((id, initialization_params)) = initialize else {
+        unreachable!()
+    };
     let server_capabilities = server_capabilities(&initialization_params.capabilities);
     let initialize_data = serde_json::json!({
         "capabilities": server_capabilities,
